@@ -130,8 +130,8 @@ def build_units(units):
 
 def run_proc(binary, args, log, timeout):
     env = dict(os.environ)
-    env["ASAN_OPTIONS"] = "detect_leaks=0:abort_on_error=0:halt_on_error=1:allocator_may_return_null=1:detect_stack_use_after_return=0"
-    env["UBSAN_OPTIONS"] = "print_stacktrace=1:halt_on_error=1"
+    env["ASAN_OPTIONS"] = "detect_leaks=0:abort_on_error=1:halt_on_error=1:allocator_may_return_null=1:detect_stack_use_after_return=0"
+    env["UBSAN_OPTIONS"] = "print_stacktrace=1:halt_on_error=1:abort_on_error=1"
     env["TSAN_OPTIONS"] = "halt_on_error=0:report_signal_unsafe=0"
     t0 = time.time()
     with open(log, "w") as lf:
